@@ -142,6 +142,11 @@ func (s LocalStore) Verify(ctx context.Context, n int, repair bool, w io.Writer)
 		default:
 		}
 		if err != nil { // failed to walk? => fail
+			if os.IsNotExist(err) {
+				// Walk lists a directory before it looks at the files, one of them
+				// is gone now (another process pruning, or done with its temp file)
+				return nil
+			}
 			return err
 		}
 		if info.IsDir() { // Skip dirs
@@ -187,6 +192,11 @@ func (s LocalStore) Prune(ctx context.Context, ids map[ChunkID]struct{}) error {
 		default:
 		}
 		if err != nil { // failed to walk? => fail
+			if os.IsNotExist(err) {
+				// Walk lists a directory before it looks at the files, one of them
+				// is gone now (another process pruning, or done with its temp file)
+				return nil
+			}
 			return err
 		}
 		if info.IsDir() { // Skip dirs
